@@ -120,14 +120,16 @@ func staticClosure(p *Prog, fns []*ssa.Function) []*ssa.Function {
 func runC05(c *Ctx) {
 	p := c.Progs["mod"]
 	c.Rule("C05.B", "no accumulate-then-forward call on the response path", 30)
-	c.Rule("C05.W", "write-through writers, single-read readers", 9)
+	c.Rule("C05.W", "write-through writers, single-read readers", 10)
+	ruleNoOwnCopyLoop(c, p, "C05.W", "agent/utils", "agent/websockets", "agent/sessions", "agent/banner")
 	c.Rule("C05.P", "the body travels through two synchronous pipes", 6)
 	rulePipeClosers(c, p, "C05.P")
 	c.Rule("C05.C", "forced chunked framing (= C03.C)", 1)
 	c.Rule("C05.F", "reverse proxy flush interval", 1)
 	c.Rule("C05.M", "the HTML shim splice does one bounded read", 2)
-	c.Rule("C05.T", "no buffering stdlib handler on the pass-through chain; writer types offer no new optional interfaces", 5)
+	c.Rule("C05.T", "no buffering stdlib handler on the pass-through chain; writer types offer no new optional interfaces; net/http defaults not reconfigured", 6)
 	ruleTransparentChain(c, p, "C05.T")
+	ruleNoMutationOfHTTPDefaults(c, p, "C05.T")
 	ruleWriterMethodSets(c, p, "C05.T")
 	c.Rule("C05.R", "a retried upload hands replayed chunks on without waiting for more backend output", 1)
 	ruleReplayDoesNotWaitForSource(c, p, "C05.R")
@@ -195,6 +197,11 @@ func runC05(c *Ctx) {
 	for _, rn := range []string{"agent/utils.(*bufferedReadSeeker).Read", "agent/utils.(attemptReader).Read", "agent/utils.(*streamedBody).Read", "agent/websockets.(*shimmedBody).Read"} {
 		fn := p.Func(rn)
 		if fn == nil {
+			// Read promoted from an embedded io.Reader: one underlying read by construction
+			if promotedRead(p, rn) {
+				c.OK("C05.W", rn+":single-read", p, 0, "Read is promoted from an embedded io.Reader: the underlying Read itself")
+				continue
+			}
 			c.Unk("C05.W", rn+":single-read", p, 0, "reader not found (renamed?)")
 			continue
 		}
@@ -424,4 +431,35 @@ func ruleWriteThrough(c *Ctx, p *Prog, rule string) {
 		}
 		c.Check(rule, tn+".Write:write-through", p, wr.Pos(), bad == "", "one synchronous underlying Write of the same slice", tn+".Write is not write-through: "+bad)
 	}
+}
+
+// promotedRead: the method named "pkg.(*T).Read" / "pkg.(T).Read" is not declared, but T embeds
+// an interface (io.Reader, io.ReadCloser) that has Read.
+func promotedRead(p *Prog, name string) bool {
+	i := strings.Index(name, ".(")
+	j := strings.LastIndex(name, ").")
+	if i < 0 || j < 0 {
+		return false
+	}
+	pkg, tn := name[:i], strings.TrimPrefix(name[i+2:j], "*")
+	for _, t := range p.NamedTypesIn(pkg) {
+		if objName(t.Obj()) != tn && t.Obj().Name() != tn {
+			continue
+		}
+		st := t.Underlying().(*types.Struct)
+		for k := 0; k < st.NumFields(); k++ {
+			f := st.Field(k)
+			if !f.Embedded() {
+				continue
+			}
+			if it, ok := f.Type().Underlying().(*types.Interface); ok {
+				for m := 0; m < it.NumMethods(); m++ {
+					if it.Method(m).Name() == "Read" {
+						return true
+					}
+				}
+			}
+		}
+	}
+	return false
 }
